@@ -15,7 +15,8 @@ tvars == <<vars, l, on>>
 ThisDesign == [UnlockAt |-> UnlockAt, RefRelease |-> RefRelease, SeqAtomic |-> SeqAtomic,
                DryRunAllocates |-> DryRunAllocates, DryRunPublishes |-> DryRunPublishes,
                RevertEventSwapped |-> RevertEventSwapped, MetaSourceLocked |-> MetaSourceLocked,
-           AckWaitsPersist |-> AckWaitsPersist, IkSpan |-> IkSpan, RevertGuard |-> RevertGuard]
+           AckWaitsPersist |-> AckWaitsPersist, IkSpan |-> IkSpan, RevertGuard |-> RevertGuard,
+           MetaLogsCarryIk |-> MetaLogsCarryIk, CancelAbortsWait |-> CancelAbortsWait]
 
 E == Trace[l + 1]
 More == l < Len(Trace)
@@ -28,7 +29,7 @@ InitWith(r) ==
     /\ lastLog = LastLogIdOf(InitStore) /\ lastTx = LastTxIdOf(InitStore)
     /\ refs = {} /\ rl = [a \in LockAccts |-> 0] /\ wl = {} /\ lq = <<>> /\ seqOwner = "none"
     /\ pending = <<>> /\ inflight = <<>> /\ doneSet = {}
-    /\ resp = [p \in Procs |-> NoResp] /\ events = <<>> /\ gen = 0 /\ crashes = 0
+    /\ resp = [p \in Procs |-> NoResp] /\ events = <<>> /\ gen = 0 /\ crashes = 0 /\ cancelled = {}
 
 TraceInit == InitWith([p \in Procs |-> Palette[1]]) /\ l = 0 /\ on = FALSE
 
@@ -51,7 +52,7 @@ TraceReset ==
             /\ store' = InitStore /\ lastLog' = LastLogIdOf(InitStore) /\ lastTx' = LastTxIdOf(InitStore)
             /\ refs' = {} /\ rl' = [a \in LockAccts |-> 0] /\ wl' = {} /\ lq' = <<>> /\ seqOwner' = "none"
             /\ pending' = <<>> /\ inflight' = <<>> /\ doneSet' = {}
-            /\ resp' = [p \in Procs |-> NoResp] /\ events' = <<>> /\ gen' = 0 /\ crashes' = 0
+            /\ resp' = [p \in Procs |-> NoResp] /\ events' = <<>> /\ gen' = 0 /\ crashes' = 0 /\ cancelled' = {}
        ELSE UNCHANGED vars
 
 TraceStep ==
@@ -65,6 +66,10 @@ TracePersist ==
     /\ More /\ on /\ E.ev = "step" /\ E.a = "persist" /\ l' = l + 1 /\ on' = on
     /\ Persist /\ Bound
 
+TraceCancel ==
+    /\ More /\ on /\ E.ev = "step" /\ E.a = "cancel" /\ l' = l + 1 /\ on' = on
+    /\ Cancel(E.p) /\ Bound
+
 TraceCrash ==
     /\ More /\ on /\ E.ev = "step" /\ E.a = "crash" /\ l' = l + 1 /\ on' = on
     /\ Crash(E.applied) /\ Bound
@@ -76,6 +81,6 @@ TraceSkip ==
 
 Finished == ~More /\ UNCHANGED tvars
 
-TraceNext == TraceReset \/ TraceStep \/ TracePersist \/ TraceCrash \/ TraceSkip \/ Finished
+TraceNext == TraceReset \/ TraceStep \/ TracePersist \/ TraceCancel \/ TraceCrash \/ TraceSkip \/ Finished
 TraceSpec == TraceInit /\ [][TraceNext]_tvars
 =============================================================================
